@@ -205,6 +205,80 @@ class NpShim:
             return zmin(a, b)
         return numpy.minimum(a, b)
 
+    # ---- predicates that NumPy cannot evaluate on object arrays
+    @staticmethod
+    def _has_sym(*xs):
+        for x in xs:
+            if isinstance(x, Sym):
+                return True
+            if isinstance(x, (list, tuple)) and any(isinstance(y, Sym) for y in x):
+                return True
+            if isinstance(x, numpy.ndarray) and x.dtype == object:
+                return True
+        return False
+
+    def isclose(self, a, b, rtol=1e-05, atol=1e-08, equal_nan=False):
+        if not self._has_sym(a, b):
+            return numpy.isclose(a, b, rtol=rtol, atol=atol, equal_nan=equal_nan)
+
+        def one(x, y):
+            if is_inf(x) or is_inf(y):
+                return (not isinstance(x, Sym)) and (not isinstance(y, Sym)) and x == y
+            return abs(x - y) <= atol + rtol * abs(y)
+
+        xa = a if isinstance(a, (list, tuple, numpy.ndarray)) else None
+        xb = b if isinstance(b, (list, tuple, numpy.ndarray)) else None
+        if xa is None and xb is None:
+            return one(a, b)
+        n = len(xa) if xa is not None else len(xb)
+        return SymBoolArray([one(xa[i] if xa is not None else a, xb[i] if xb is not None else b) for i in range(n)])
+
+    def allclose(self, a, b, rtol=1e-05, atol=1e-08, equal_nan=False):
+        r = self.isclose(a, b, rtol, atol, equal_nan)
+        return r.all() if hasattr(r, "all") else bool(r)
+
+    def isfinite(self, x):
+        return True if isinstance(x, Sym) else numpy.isfinite(x)
+
+    def isnan(self, x):
+        return False if isinstance(x, Sym) else numpy.isnan(x)
+
+    def isinf(self, x):
+        return False if isinstance(x, Sym) else numpy.isinf(x)
+
+
+class SymBoolArray:
+    """result of an element-wise predicate on proxies"""
+
+    def __init__(self, items):
+        self.items = list(items)
+
+    def any(self):
+        for x in self.items:
+            if bool(x):
+                return True
+        return False
+
+    def all(self):
+        for x in self.items:
+            if not bool(x):
+                return False
+        return True
+
+    def __iter__(self):
+        return iter(self.items)
+
+    def __len__(self):
+        return len(self.items)
+
+    def __getitem__(self, i):
+        return self.items[i]
+
+    def __bool__(self):
+        if len(self.items) != 1:
+            raise ValueError("The truth value of an array with more than one element is ambiguous. Use a.any() or a.all()")
+        return bool(self.items[0])
+
 
 _installed = {}
 
